@@ -105,6 +105,28 @@ def conn_tokens(T, conn):
     return "ok " + " ".join(T.short(v) for v in vals)
 
 
+def canonical(items):
+    """every value has the documented type of its key (then rejecting the configuration contradicts the statement's 'accepted')"""
+    for k, v in items:
+        if isinstance(v, bool):
+            return False
+        if k in ("MODE", "TRANSPORT_TYPE") or k.endswith("IP_ADDRESS"):
+            ok = isinstance(v, str)
+        elif k.endswith("HOSTNAME") or k.endswith("REALM"):
+            ok = isinstance(v, str) and v != ""
+        elif k.endswith("PORT"):
+            ok = isinstance(v, int)
+        elif k == "WATCHDOG_TIMEOUT":
+            ok = isinstance(v, int) and v >= 0
+        elif k == "APPLICATIONS":
+            ok = isinstance(v, list)
+        else:
+            ok = True
+        if not ok:
+            return False
+    return True
+
+
 def explore(chk, rng, cfgs, tag):
     lines, meta = [], []
     for items, valid, how in cfgs:
@@ -137,8 +159,11 @@ def explore(chk, rng, cfgs, tag):
             want = "ok " + " ".join(T.short(cfgd[k]) for k in KEYS)
             if impl != want:
                 chk.violation("accepted configuration is not reflected exactly", inp, want, impl)
-        elif valid:
+        elif valid and canonical(items):
             chk.violation("valid complete configuration rejected", inp, "accepted", res[0])
+        # a configuration with values of a marginal type (an integer address, a port given as None or as text, a host name that is
+        # not text) that the unchanged code happens to accept may be rejected with the library's error without breaking the
+        # statement: that case is a difference from the model only (recorded above as a correspondence break)
         if snapshot != after or list(after) != [k for k, _ in items]:
             chk.violation("the caller's configuration dictionary was altered", inp, snapshot, after)
 
